@@ -15,4 +15,6 @@ package enum
 //@ func Detect
 //@   props C08
 //@   assigns nothing
+// every constant of the named type declared in its package is a member, exported or not
+//@   loop 1 invariant forall j int :: 0 <= j && j < idx && dynIs[*types.Const](scope.Lookup(scope.Names()[j])) && types.Identical(named, scope.Lookup(scope.Names()[j]).Type()) ==> has(members, scope.Names()[j])
 //@   ensures !result1 ==> result0.Members == nil
